@@ -192,7 +192,8 @@ def pipeline(chk, want_shape_tlc):
         t = threading.Thread(target=g); t.start()
         return t
     ths = [job("bfs", gen_bfs, "Gen_BTreeMap_bfs.cfg", 3 if thorough else 2, workers=6),
-           job("big", gen_bfs, "Gen_BTreeMap_big.cfg", 4, workers=2)]
+           job("big", gen_bfs, "Gen_BTreeMap_big.cfg", 4, workers=2),
+           job("full", gen_bfs, "Gen_BTreeMap_full.cfg", 3, workers=2)]
     ths += [job(tag + ":" + mo, gen_walks, cfg, n, chk.seed, mo) for tag, cfg, motifs in walks_cfg for mo, n in motifs.items()]
     [t.join() for t in ths]
     for k, v in got.items():
@@ -216,6 +217,18 @@ def pipeline(chk, want_shape_tlc):
     for i, c in enumerate(big):
         c["hint"] = HINTS[i % 3]; c["store"] = "mem"; c["dump"] = "last" if i % (4 if thorough else 20) == 0 else "none"
     groups.append(("ubig", unib, big))
+    # --- a full root interior page (six children): inserts that split the child at every position, then the interior page
+    unif, full, st = got["full"]
+    gstats["full"] = dict(st, emitted=len(full))
+    if not thorough:
+        # the third insert into one leaf's key range is what splits; keep every such case and a sample of the others
+        def third(c):
+            ks = sorted(x["k"] for x in c["steps"][-3:]) if len(c["steps"]) >= 21 else []
+            return len(ks) == 3 and ks[2] - ks[0] <= 6
+        full = [c for c in full if third(c)] + vlib.stratified_sample([c for c in full if not third(c)], lambda c: len(c["steps"]), 600, rng)
+    for i, c in enumerate(full):
+        c["hint"] = HINTS[i % 3]; c["store"] = "mem"; c["dump"] = "last" if (thorough or i % 3 == 0) else "none"
+    groups.append(("ufull", unif, full))
     # --- walks, each under the three hint modes
     for tag, cfg, motifs in walks_cfg:
         uni = got[tag + ":" + next(iter(motifs))][0]
@@ -259,6 +272,7 @@ def nonvacuity(P):
         cnt["steps_executed"] += r["executed"]
         if s["depth"] >= 2: cnt["cases_with_leaf_split"] += 1
         if s["depth"] >= 3: cnt["cases_with_interior_split"] += 1
+        if s["depth"] >= 3 and c.get("grp") == "ufull": cnt["cases_splitting_a_full_root_interior_page"] += 1
         if s["empty_leaf_steps"] > 0: cnt["cases_with_emptied_leaf"] += 1
         if s["max_leaf_cells"] >= 8: cnt["cases_with_8plus_cells_in_a_leaf"] += 1
         if s["fastpath_hits"] > 0: cnt["cases_taking_the_hint_fastpath"] += 1
@@ -270,7 +284,7 @@ def nonvacuity(P):
         for st in c["steps"][:r["executed"]]:
             cnt["op_" + st["o"]] += 1
     need = ["cases_with_leaf_split", "cases_with_interior_split", "cases_with_emptied_leaf", "cases_with_8plus_cells_in_a_leaf",
-            "cases_taking_the_hint_fastpath", "hint_none", "hint_fresh", "hint_stale", "op_ins", "op_ifabs", "op_app", "op_upd", "op_del",
+            "cases_taking_the_hint_fastpath", "cases_splitting_a_full_root_interior_page", "hint_none", "hint_fresh", "hint_stale", "op_ins", "op_ifabs", "op_app", "op_upd", "op_del",
             "op_get", "op_fwd", "op_back"]
     missing = [k for k in need if cnt[k] == 0]
     if missing:
